@@ -11,7 +11,7 @@ Open Scope Z_scope.
 (* time-weighted APY = floor(per-second sum / T), under the no-saturation bound T * cap <= u128::MAX,
    for gradients within the cap (the program keeps them there: c38_gradient_stays_capped) *)
 Theorem c38_apy_is_average : forall grad, length grad = 53%nat -> (forall x, In x grad -> 0 <= x <= APY_MAX) ->
-  forall start now, start < now -> now - start <= I64MAX -> (now - start) * APY_MAX <= U128MAX ->
+  forall start now, start < now -> (now - start) * APY_MAX <= U128MAX ->
   twa start now grad = Some (sec_sum grad (Z.to_nat (now - start)) / (now - start)).
 Proof. exact twa_is_average. Qed.
 
@@ -84,3 +84,7 @@ Example c38_ex_unstake :
       s_pos s' = Some (mkpos 600 5999 1000000 (3 * 10 ^ 24)) /\ s_vault s' = 607) /\
   (exists s' e, step s (Unstake 960 0 0) = Ok (s', e) /\ e_transfer e = 1007 /\ s_pos s' = None /\ e_close e = true).
 Proof. split; eexists; eexists; vm_compute; repeat split; reflexivity. Qed.
+
+(* total on all i64 inputs: the former panic on i64 overflow of now - start is repaired *)
+Theorem c38_apy_total : forall start now grad, exists r, twa start now grad = Some r.
+Proof. intros start now grad. unfold twa. destruct (now <=? start); eauto. Qed.
